@@ -5,5 +5,6 @@ cd "$(dirname "$0")"
 coqc -noglob -Q ../coq/theories AtreeModel -Q ../coq/gen AtreeGen ../coq/extract/Extract.v -o /dev/null 2>/dev/null || \
   coqc -noglob -Q ../coq/theories AtreeModel -Q ../coq/gen AtreeGen ../coq/extract/Extract.v
 rm -f ../coq/extract/Extract.vo ../coq/extract/Extract.vos ../coq/extract/Extract.vok ../coq/extract/.Extract.aux
-ocamlfind ocamlopt -O2 -w -a -package zarith -linkpkg model.mli model.ml driver.ml -o runner 2>/dev/null || \
-  ocamlfind ocamlopt -w -a -package zarith -linkpkg model.mli model.ml driver.ml -o runner
+ocamlfind ocamlopt -O2 -w -a -package zarith -linkpkg model.mli model.ml driver.ml -o runner.new 2>/dev/null || \
+  ocamlfind ocamlopt -w -a -package zarith -linkpkg model.mli model.ml driver.ml -o runner.new
+mv -f runner.new runner   # atomic: a check that is executing the old binary keeps it
